@@ -1310,10 +1310,21 @@ where
             }
         };
 
+        if proofs_share.len() != self.typ.proof_len() * self.num_proofs() {
+            return Err(VdafError::Uncategorized(format!(
+                "unexpected proofs share length: got {}; want {}",
+                proofs_share.len(),
+                self.typ.proof_len() * self.num_proofs(),
+            )));
+        }
+
         // Compute the joint randomness.
         let (joint_rand_seed, joint_rand_part, joint_rands) = if self.typ.joint_rand_len() > 0 {
+            let joint_rand_blind = msg.joint_rand_blind().ok_or_else(|| {
+                VdafError::Uncategorized("input share is missing the joint randomness blind".into())
+            })?;
             let mut joint_rand_part_xof = P::init(
-                msg.joint_rand_blind().as_ref().unwrap().as_ref(),
+                joint_rand_blind.as_ref(),
                 &[&self.domain_separation_tag(DST_JOINT_RAND_PART), ctx],
             );
             joint_rand_part_xof.update(&[agg_id]);
